@@ -58,18 +58,29 @@ def job(ws, kind, d):
     res = {}
     try:
         if kind == "seeded":
+            own = meta.get("property")
             order = list(meta.get("caught_by") or []) + [c for c in meta.get("checks", {}) if c not in (meta.get("caught_by") or [])]
+            if UPDATE:  # the property's own check first, then every check that was ever tried; all of them are run and recorded
+                order = [own] + [c for c in order if c != own]
             verdict = "MISSED"
             for c in order:
                 res[c] = run_check(ws, c)
                 if res[c]["exit"] == 1 and res[c]["violation"]:
-                    verdict = "caught:%s:%s" % (c, "input" if "no-failing-input-found" not in res[c]["violation"] else "obligation")
-                    break
+                    if verdict == "MISSED":
+                        verdict = "caught:%s:%s" % (c, "input" if "no-failing-input-found" not in res[c]["violation"] else "obligation")
+                    if not UPDATE:
+                        break
+            if UPDATE:
+                meta["checks"] = {c: {"exit": r["exit"], "violation": r["violation"].replace(ws, ""), "kind": r.get("kind"), "oracle": r.get("what"), "detail": r.get("detail")} for c, r in res.items()}
+                meta["caught_by"] = [c for c, r in res.items() if r["exit"] == 1 and r["violation"]]
+                meta["rechecked_at_verif_commit"] = HEAD
+                json.dump(meta, open(os.path.join(d, "meta.json"), "w"), indent=1)
         else:
             import hrck
             verdict = "silent"
             for c in hrck.AREAS[meta["area"]]:
                 res[c] = run_check(ws, c)
+                res[c]["violation"] = res[c]["violation"].replace(ws, "")
                 if res[c]["exit"] == 1:
                     if "no-failing-input-found" in res[c]["violation"]:
                         if verdict == "silent":
@@ -80,11 +91,24 @@ def job(ws, kind, d):
                     verdict = "CHECK-ERROR"
     finally:
         sh("git checkout -q -- . && git clean -qfd pkg cmd", cwd=repo)
+    if UPDATE and kind == "harmless":
+        meta["checks"] = res
+        meta["verdict"] = {"silent": "silent", "obligation-broken": "obligation-or-correspondence-broken"}.get(verdict, verdict)
+        meta["rechecked_at_verif_commit"] = HEAD
+        json.dump(meta, open(os.path.join(d, "meta.json"), "w"), indent=1)
     return {"name": name, "kind": kind, "verdict": verdict, "checks": res}
 
 
+UPDATE = False
+HEAD = subprocess.run(["git", "-C", V, "rev-parse", "--short", "HEAD"], stdout=subprocess.PIPE, text=True).stdout.strip()
+
+
 def main():
+    global UPDATE
     args = sys.argv[1:]
+    if args and args[0] == "--update":  # rewrite seeded/*/meta.json and harmless/*/meta.json with what the checks say NOW
+        UPDATE = True
+        args = args[1:]
     n = 4
     if args and args[0] == "-j":
         n = int(args[1]); args = args[2:]
